@@ -130,6 +130,15 @@ reg(
   "eps = 1e-4*max(1,|f|max); unconverged worlds only checked for J^T f.",
 )
 reg(
+  "C03",
+  "property-based differential testing (Hypothesis) against MuJoCo C mj_forward/mj_step actuation fields",
+  "Random articulated models with 1-8 actuators over the full grammar (all shortcuts + general; dyntype none/integrator/filter/filterexact/user; joint, jointinparent, "
+  "tendon, site(+refsite), slider-crank, body transmissions; ctrl far outside ctrlrange, clampctrl on/off, force limits, joint/tendon actuatorfrcrange, gravcomp) x random "
+  "states, 1-2 worlds: actuator_length/moment/velocity/force, act_dot, qfrc_actuator after forward and act after one step agree with MuJoCo (5e-4).",
+  "MuJoCo 3.13 is the reference; body-transmission actuators are compared only when both engines report the same contacts on that body (C04 decides contacts), "
+  "slider-crank actuators within 1% of their singular configuration (det=0) are skipped (float32 conditioning), both counted; servo wrap on ball joints is a KNOWN-FINDING.",
+)
+reg(
   "C39",
   "property-based differential testing (Hypothesis) against mujoco.mj_contactForce fed with MJWarp's solved forces",
   "Random contact scenes, all condims, both cones, adhesion actuators and passive geom/pair contact adhesion; every contact's wrench in the contact frame and rotated to the "
